@@ -1297,3 +1297,448 @@ pub fn replay(case: &serde_json::Value) -> Result<(Option<Violation>, String), S
     }
     Ok((out.violations.into_iter().next(), format!("{:016x}", out.log_hash)))
 }
+
+// ------------------------------------------------------------------------------------------------
+// SOLO world: the real backend alone on trees whose links are indirect (a link to a link, a link
+// whose text passes through a link to a directory). Such states are outside the domain in which
+// the two backends are compared, so nothing is compared here: what is judged are the clauses of
+// C09 that need no second backend - a successful copy leaves the source untouched, a failed
+// move_p changes nothing, nothing panics - on the tree seen by the independent disk observer.
+// ------------------------------------------------------------------------------------------------
+
+fn canon_virt(sb: &Sandbox, v: &str) -> Option<String> {
+    std::fs::canonicalize(sb.real(v)).ok().and_then(|p| sb.virt(&p.to_string_lossy()))
+}
+
+/// Physical location of the entry a path names (final component not followed)
+fn entry_loc(sb: &Sandbox, v: &str) -> Option<String> {
+    let v = crate::refpath::clean(v);
+    if v == "/" {
+        return Some("/".into());
+    }
+    let par = canon_virt(sb, &tree::parent(&v)?)?;
+    Some(tree::join(&par, tree::base(&v)))
+}
+
+fn solo_tree(rng: &mut Rng) -> Tree {
+    let pool = ["a", "b", "c", "d", "e"];
+    let mut t = Tree::default();
+    t.nodes.insert("/".into(), Node::dir(0o40755));
+    t.cwd = "/".into();
+    let mut dirs = vec!["/".to_string()];
+    for _ in 0..rng.range(1, 4) {
+        let par = rng.pick(&dirs).clone();
+        if tree::depth(&par) >= 2 {
+            continue;
+        }
+        let nm: &str = *rng.pick(&pool[..]);
+        let p = tree::join(&par, nm);
+        if !t.nodes.contains_key(&p) {
+            t.nodes.insert(p.clone(), Node::dir(*rng.pick(&[0o40755, 0o40755, 0o40750, 0o40700])));
+            dirs.push(p);
+        }
+    }
+    for _ in 0..rng.range(2, 5) {
+        let par = rng.pick(&dirs).clone();
+        let nm: &str = *rng.pick(&pool[..]);
+        let p = tree::join(&par, nm);
+        if !t.nodes.contains_key(&p) {
+            let mut n = Node::dir(0);
+            n.kind = Kind::File;
+            n.mode = *rng.pick(&[0o100644, 0o100644, 0o100600, 0o100640, 0o100755]);
+            n.data = Some(Bytes(format!("data of {}", p).into_bytes()));
+            t.nodes.insert(p, n);
+        }
+    }
+    let mut counter = 0;
+    let mut add_link = |t: &mut Tree, rng: &mut Rng, target: String, link_dir: bool, dirs: &Vec<String>| {
+        let par = rng.pick(dirs).clone();
+        counter += 1;
+        let name = if rng.chance(1, 2) { rng.pick(&pool).to_string() } else { format!("l{}", counter) };
+        let p = tree::join(&par, &name);
+        if t.nodes.contains_key(&p) || target == p {
+            return;
+        }
+        let rel = crate::refpath::relative(&target, &par);
+        t.nodes.insert(p, Node::link(target, rel, link_dir));
+    };
+    // direct links
+    for _ in 0..rng.range(1, 3) {
+        let cands: Vec<(String, bool)> = t.nodes.iter().filter(|(k, n)| *k != "/" && n.kind != Kind::Link).map(|(k, n)| (k.clone(), n.kind == Kind::Dir)).collect();
+        if cands.is_empty() {
+            break;
+        }
+        let (tg, d) = rng.pick(&cands).clone();
+        add_link(&mut t, rng, tg, d, &dirs);
+    }
+    // indirect links
+    for _ in 0..rng.range(1, 3) {
+        let links: Vec<(String, Node)> = t.nodes.iter().filter(|(_, n)| n.kind == Kind::Link).map(|(k, n)| (k.clone(), n.clone())).collect();
+        if links.is_empty() {
+            break;
+        }
+        let (pl, ln) = rng.pick(&links).clone();
+        if rng.chance(1, 2) || !ln.link_dir {
+            // a link to a link
+            add_link(&mut t, rng, pl, ln.link_dir, &dirs);
+        } else {
+            // a link whose text passes through a link to a directory
+            let tdir = ln.target.clone().unwrap_or_default();
+            let kids = t.children(&tdir);
+            if kids.is_empty() {
+                add_link(&mut t, rng, pl, true, &dirs);
+            } else {
+                let c = rng.pick(&kids).clone();
+                let is_dir = t.nodes[&c].kind == Kind::Dir || t.nodes[&c].link_dir;
+                add_link(&mut t, rng, tree::join(&pl, tree::base(&c)), is_dir, &dirs);
+            }
+        }
+    }
+    t
+}
+
+fn solo_spell(t: &Tree, p: &str, rng: &mut Rng) -> String {
+    // the same entry named through a link to one of its ancestor directories
+    if rng.chance(1, 4) {
+        let cands: Vec<(&String, &Node)> = t
+            .nodes
+            .iter()
+            .filter(|(_, n)| n.kind == Kind::Link && n.link_dir)
+            .filter(|(_, n)| n.target.as_deref().map(|tg| tg != p && tg != "/" && is_under(p, tg)).unwrap_or(false))
+            .collect();
+        if !cands.is_empty() {
+            let (lk, ln) = rng.pick(&cands).clone();
+            let tg = ln.target.clone().unwrap();
+            return format!("{}{}", lk, &p[tg.len()..]);
+        }
+    }
+    p.to_string()
+}
+
+fn solo_op(t: &Tree, rng: &mut Rng) -> Option<Op> {
+    let all: Vec<String> = t.nodes.keys().filter(|k| *k != "/").cloned().collect();
+    if all.is_empty() {
+        return None;
+    }
+    let links: Vec<String> = t.nodes.iter().filter(|(_, n)| n.kind == Kind::Link).map(|(k, _)| k.clone()).collect();
+    let dirs: Vec<String> = t.nodes.iter().filter(|(_, n)| n.kind == Kind::Dir).map(|(k, _)| k.clone()).collect();
+    let pk = rng.pick(&all[..]).clone();
+    let s = solo_spell(t, &pk, rng);
+    let d = match rng.below(10) {
+        0..=5 if !links.is_empty() => rng.pick(&links).clone(),
+        6 | 7 => rng.pick(&all).clone(),
+        8 => {
+            let dd = rng.pick(&dirs[..]).clone();
+            let nn: &str = *rng.pick(&["n1", "n2", "a", "b"][..]);
+            tree::join(&dd, nn)
+        },
+        _ => {
+            let pk = rng.pick(&all[..]).clone();
+            solo_spell(t, &pk, rng)
+        },
+    };
+    Some(match rng.below(6) {
+        0 | 1 => Op::Copy { s, d },
+        2 | 3 => {
+            let mut calls = vec![];
+            if rng.chance(1, 2) {
+                calls.push(match rng.below(3) {
+                    0 => CopyCall::ChmodAll(*rng.pick(&[0o755, 0o700, 0o775])),
+                    1 => CopyCall::ChmodFiles(*rng.pick(&[0o666, 0o600, 0o644])),
+                    _ => CopyCall::ChmodDirs(*rng.pick(&[0o755, 0o700, 0o775])),
+                });
+            }
+            Op::CopyB { s, d, calls }
+        },
+        _ => Op::MoveP { s, d },
+    })
+}
+
+/// Links are given by their text on disk; the generator wants resolved targets back
+fn solo_resolve_targets(sb: &Sandbox, t: &mut Tree) {
+    let keys: Vec<String> = t.nodes.keys().cloned().collect();
+    for k in keys {
+        if t.nodes[&k].kind == Kind::Link {
+            let c = canon_virt(sb, &k);
+            let n = t.nodes.get_mut(&k).unwrap();
+            n.target = c;
+        }
+    }
+}
+
+fn node_delta(a: &Node, b: &Node) -> Option<&'static str> {
+    if a.kind != b.kind {
+        Some("kind")
+    } else if a.data != b.data {
+        Some("content")
+    } else if a.rel != b.rel {
+        Some("target")
+    } else if a.kind != Kind::Link && (a.mode & 0o7777) != (b.mode & 0o7777) {
+        Some("mode")
+    } else {
+        None
+    }
+}
+
+pub fn run_solo(prop: &str, sb: &Sandbox, pre: &Tree, mut src: Src, stats: &mut Stats, known: &dyn Fn(&Violation) -> bool) -> DiffOut {
+    let mut out = DiffOut { ops: vec![], violations: vec![], log_hash: 0, harness_skip: None };
+    if let Err(e) = sb.fresh() {
+        out.harness_skip = Some(format!("sandbox: {}", e));
+        return out;
+    }
+    seq::set_env(&Env::new());
+    let std_ = Stdfs::new();
+    let finish = |out: DiffOut| -> DiffOut {
+        let _ = std::env::set_current_dir("/");
+        out
+    };
+    if let Err(e) = materialise_disk(sb, pre) {
+        out.harness_skip = Some(format!("materialise disk: {}", e));
+        return finish(out);
+    }
+    if std::env::set_current_dir(sb.real("/")).is_err() {
+        out.harness_skip = Some("cwd".into());
+        return finish(out);
+    }
+    stats.runs += 1;
+    let mut hs = Handles::default();
+    let total = match &src {
+        Src::Gen { len, .. } => *len,
+        Src::Replay(o) => o.len(),
+    };
+    for i in 0..total {
+        let mut before = match disk_tree(sb) {
+            Ok(t) => t,
+            Err(e) => {
+                out.harness_skip = Some(e);
+                break;
+            },
+        };
+        solo_resolve_targets(sb, &mut before);
+        let vop = match &mut src {
+            Src::Gen { rng, .. } => match solo_op(&before, rng) {
+                Some(o) => o,
+                None => break,
+            },
+            Src::Replay(o) => o[i].clone(),
+        };
+        let (s, d) = match &vop {
+            Op::Copy { s, d } | Op::CopyB { s, d, .. } | Op::MoveP { s, d } => (s.clone(), d.clone()),
+            _ => continue,
+        };
+        let s_loc = match entry_loc(sb, &s) {
+            Some(x) if x != "/" => x,
+            _ => continue,
+        };
+        // candidate destination roots: the entry dst names, and dst/<name> when dst leads to a directory
+        let mut roots = vec![];
+        if let Some(x) = entry_loc(sb, &d) {
+            roots.push(x);
+        }
+        if let Some(c) = canon_virt(sb, &d) {
+            if before.nodes.get(&c).map(|n| n.kind == Kind::Dir).unwrap_or(false) {
+                roots.push(tree::join(&c, tree::base(&s_loc)));
+            }
+        }
+        if roots.is_empty() {
+            continue;
+        }
+        let overlap = roots.iter().any(|r| is_under(r, &s_loc) || is_under(&s_loc, r));
+        // pre-existing destination links that lead somewhere else than the entry they face: a
+        // copy written through them may legitimately land anywhere they lead, incl. the source
+        let mut through: Vec<String> = vec![];
+        for r in &roots {
+            for k in before.subtree(r) {
+                let n = &before.nodes[&k];
+                if n.kind == Kind::Link {
+                    let facing = format!("{}{}", s_loc, &k[r.len()..]);
+                    if let Some(c) = n.target.clone() {
+                        if c != facing {
+                            through.push(c);
+                        }
+                    }
+                }
+            }
+        }
+        let dst_class = {
+            let dk = entry_loc(sb, &d).and_then(|x| before.nodes.get(&x).map(|n| n.kind));
+            match dk {
+                Some(Kind::Link) => {
+                    if canon_virt(sb, &d) == canon_virt(sb, &s) {
+                        "dst=link-back-to-source"
+                    } else {
+                        "dst=link"
+                    }
+                },
+                Some(Kind::Dir) => "dst=dir",
+                Some(Kind::File) => "dst=file",
+                None => "dst=missing",
+            }
+        };
+        let src_class = match before.nodes.get(&s_loc).map(|n| n.kind) {
+            Some(Kind::Link) => "src=link",
+            Some(Kind::Dir) => "src=dir",
+            Some(Kind::File) => "src=file",
+            None => "src=missing",
+        };
+        if crate::TRACE.load(std::sync::atomic::Ordering::Relaxed) {
+            use std::io::Write;
+            println!("T {}", json!({"label": vop.label(), "op": vop}));
+            let _ = std::io::stdout().flush();
+        }
+        let rop = sb.map_op(&vop);
+        let so = exec::exec(&std_, &mut hs, &rop);
+        out.ops.push(vop.clone());
+        stats.steps += 1;
+        let step = out.ops.len() - 1;
+        let after = match disk_tree(sb) {
+            Ok(t) => t,
+            Err(e) => {
+                out.harness_skip = Some(e);
+                break;
+            },
+        };
+        let mut v: Option<Violation> = None;
+        if let Outcome::Panic(m) = &so {
+            v = Some(Violation {
+                property: prop.into(),
+                oracle: "panic".into(),
+                step,
+                sig: format!("solo-panic|{}|{},{}", vop.label(), src_class, dst_class),
+                detail: format!("{:?} panicked on Stdfs: {}", vop, m),
+            });
+        } else if matches!(vop, Op::MoveP { .. }) && so.is_err() {
+            let ds = tree::diff(&before, &after, CMP);
+            if !ds.is_empty() {
+                v = Some(Violation {
+                    property: prop.into(),
+                    oracle: "failed-move-changed-the-tree".into(),
+                    step,
+                    sig: format!("solo-failed-move|{},{}", src_class, dst_class),
+                    detail: format!("{:?} failed with {:?} on Stdfs but the disk changed: {:?}", vop, so, ds.iter().take(4).collect::<Vec<_>>()),
+                });
+            }
+        } else if matches!(vop, Op::Copy { .. } | Op::CopyB { .. }) && so.is_ok() && !overlap {
+            for k in before.subtree(&s_loc) {
+                if through.iter().any(|c| is_under(&k, c)) {
+                    stats.bump("solo.source_entries_exempt_written_through_a_destination_link");
+                    continue;
+                }
+                let b = &before.nodes[&k];
+                let delta = match after.nodes.get(&k) {
+                    None => Some("missing"),
+                    Some(a) => node_delta(b, a),
+                };
+                if let Some(what) = delta {
+                    v = Some(Violation {
+                        property: prop.into(),
+                        oracle: "copy-changed-its-source".into(),
+                        step,
+                        sig: format!("solo-source-changed|{}|{},{}|{}", vop.label(), src_class, dst_class, what),
+                        detail: format!("{:?} succeeded on Stdfs but source entry {} changed ({}): before {:?} after {:?}", vop, k, what, b, after.nodes.get(&k)),
+                    });
+                    break;
+                }
+            }
+            stats.bump("solo.copies_judged");
+        }
+        stats.bump(&format!("solo.{}.{}", vop.name(), so.class3()));
+        stats.triples.insert(format!("solo|{}|{},{}|{}", vop.label(), src_class, dst_class, so.class3()));
+        out.log_hash = hash_bytes(out.log_hash, format!("{:?}{}", vop, so.class3()).as_bytes());
+        out.log_hash = hash_bytes(out.log_hash, &after.full_hash().to_le_bytes());
+        if let Some(v) = v {
+            if known(&v) {
+                *stats.known_hits.entry(v.sig.clone()).or_insert(0) += 1;
+                stats.runs_ended_by_known += 1;
+            } else {
+                out.violations.push(v);
+            }
+            break;
+        }
+    }
+    hs.clear();
+    finish(out)
+}
+
+pub fn solo_index(id: &str, tier: &str, seed: u64, idx: u64, stats: &mut Stats, known: &dyn Fn(&Violation) -> bool) -> Option<Finding> {
+    drop_privileges_once();
+    let rs = mix(&[seed, hash_str(id), hash_str(tier), hash_str("solo"), idx]);
+    let mut rng = Rng::new(rs);
+    let pre = solo_tree(&mut rng);
+    let len = rng.range(1, 3);
+    let mut gen = Gen::new(profile(), format!("{}", idx), &mut Rng::new(rs ^ 1));
+    let out = SANDBOX.with(|sb| {
+        let o = run_solo(id, sb, &pre, Src::Gen { gen: &mut gen, rng: &mut rng, len }, stats, known);
+        sb.cleanup();
+        o
+    });
+    if out.harness_skip.is_some() {
+        stats.bump("HARNESS.solo_run_skipped");
+        return None;
+    }
+    stats.distinct_cases.insert(out.log_hash);
+    stats.bump("stdfs_solo_runs");
+    let v = out.violations.into_iter().next()?;
+    let mut case = DiffCase {
+        format: 1,
+        property: id.into(),
+        world: "SOLO".into(),
+        seed,
+        run: idx,
+        knobs: Knobs::default(),
+        env: Env::new(),
+        tree: pre,
+        ops: out.ops,
+        expect: Some(seq::ExpectSig { sig: v.sig.clone(), step: v.step }),
+        log_hash: format!("{:016x}", out.log_hash),
+        what: v.detail.clone(),
+    };
+    let still = |c: &DiffCase| -> bool {
+        let mut st = Stats::default();
+        SANDBOX.with(|sb| {
+            let o = run_solo(&c.property, sb, &c.tree, Src::Replay(&c.ops), &mut st, &|_| false);
+            sb.cleanup();
+            o.violations.first().map(|x| x.sig == v.sig).unwrap_or(false)
+        })
+    };
+    // minimise: operations before the failing one, then entries of the pre-state
+    case.ops.truncate(v.step + 1);
+    let mut i = 0;
+    while i + 1 < case.ops.len() {
+        let mut c2 = case.clone();
+        c2.ops.remove(i);
+        if still(&c2) {
+            case = c2;
+        } else {
+            i += 1;
+        }
+    }
+    let keys: Vec<String> = case.tree.nodes.keys().rev().cloned().collect();
+    for k in keys {
+        if k == "/" || case.tree.nodes.keys().any(|o| o != &k && is_under(o, &k)) {
+            continue;
+        }
+        let mut c2 = case.clone();
+        c2.tree.nodes.remove(&k);
+        if still(&c2) {
+            case = c2;
+        }
+    }
+    case.expect = Some(seq::ExpectSig { sig: v.sig.clone(), step: case.ops.len().saturating_sub(1) });
+    Some(Finding { violation: v, case: serde_json::to_value(&case).unwrap() })
+}
+
+pub fn replay_solo(case: &serde_json::Value) -> Result<(Option<Violation>, String), String> {
+    drop_privileges_once();
+    let c: DiffCase = serde_json::from_value(case.clone()).map_err(|e| e.to_string())?;
+    let mut st = Stats::default();
+    let out = SANDBOX.with(|sb| {
+        let o = run_solo(&c.property, sb, &c.tree, Src::Replay(&c.ops), &mut st, &|_| false);
+        sb.cleanup();
+        o
+    });
+    if let Some(w) = out.harness_skip {
+        return Err(w);
+    }
+    Ok((out.violations.into_iter().next(), format!("{:016x}", out.log_hash)))
+}
